@@ -743,3 +743,218 @@ Proof.
   apply Sc_seq with (c1 := cc); [apply Sc_same; reflexivity|].
   apply Sc_seq with (c1 := c1); [exact (ack_loop_Sc _ _ _ _ _ E1)|exact (recv_msgs_Sc _ _ _ _ _ _ E2)].
 Qed.
+
+(* ---------- packet assembly: callbacks move from the queue to the pending datagram ---------- *)
+Definition mpl (m : pmsg) : list Z := pids (olist (m_cb m)).
+Lemma pids_mcbs q : pids (mcbs q) = flat_map mpl q.
+Proof. induction q as [|m q IH]; [reflexivity|]. change (mcbs (m :: q)) with (olist (m_cb m) ++ mcbs q). rewrite pids_app, IH. reflexivity. Qed.
+
+Lemma out_pass_cnt e q : forall msgs cur rem msgs' cur',
+  out_pass e q msgs cur = (rem, msgs', cur') ->
+  exists taken, msgs' = msgs ++ taken /\ sub (flat_map mpl rem ++ flat_map mpl taken) (flat_map mpl q) /\
+                incl rem q /\ incl taken q.
+Proof.
+  induction q as [|m q IH]; intros msgs cur rem msgs' cur' E; cbn [out_pass] in E.
+  - injection E as <- <- <-. exists []. rewrite app_nil_r. repeat split; try apply incl_refl. apply sub_refl.
+  - destruct (fits _ _ _ _).
+    + destruct (IH _ _ _ _ _ E) as (tk & -> & S & I1 & I2). exists (m :: tk). rewrite <- app_assoc. split; [reflexivity|].
+      split; [|split; [apply incl_tl; exact I1|apply incl_cons; [left; reflexivity|apply incl_tl; exact I2]]].
+      change (flat_map mpl (m :: tk)) with (mpl m ++ flat_map mpl tk). change (flat_map mpl (m :: q)) with (mpl m ++ flat_map mpl q). subs.
+    + destruct (out_pass e q msgs cur) as [[rem0 ms0] cu0] eqn:E0. injection E as <- <- <-.
+      destruct (IH _ _ _ _ _ E0) as (tk & -> & S & I1 & I2). exists tk. split; [reflexivity|].
+      split; [|split; [apply incl_cons; [left; reflexivity|apply incl_tl; exact I1]|apply incl_tl; exact I2]].
+      change (flat_map mpl (m :: rem0)) with (mpl m ++ flat_map mpl rem0). change (flat_map mpl (m :: q)) with (mpl m ++ flat_map mpl q). subs.
+Qed.
+
+Lemma pids_nil_iff l : pids l = [] <-> forall k, In k l -> pid k = [].
+Proof.
+  split.
+  - intros H k Hk. destruct (pid k) as [|x r] eqn:E; [reflexivity|]. exfalso.
+    assert (Hx : In x (pids l)) by (apply in_flat_map; exists k; split; [exact Hk|rewrite E; left; reflexivity]).
+    rewrite H in Hx. destruct Hx.
+  - intros H. induction l as [|k l IH]; [reflexivity|]. change (pids (k :: l)) with (pid k ++ pids l).
+    rewrite (H k (or_introl eq_refl)), IH; [reflexivity|]. intros k' Hk'. apply H. right. exact Hk'.
+Qed.
+
+Lemma stamp_cb now m : m_cb (stamp now m) = m_cb m. Proof. reflexivity. Qed.
+Lemma stamp_retry now m : m_retry (stamp now m) = m_retry m. Proof. reflexivity. Qed.
+
+Lemma build_impl_Sc e c now ka delay c' r : build_impl e c now ka delay = (c', r) -> Sc [] c c' [].
+Proof.
+  intros E. unfold build_impl in E.
+  destruct (match c_pretry_msg c with [] => _ | _ => _ end) as [[prm msgs0] cur0] eqn:E0.
+  assert (H0 : incl prm (c_pretry_msg c) /\ incl msgs0 (map snd (c_pretry_msg c))).
+  { destruct (c_pretry_msg c) eqn:Ep; [injection E0 as <- <- <-; split; intros x []|].
+    destruct (retry_pass_sub _ _ _ _ _ _ _ _ _ _ E0) as [A B]. split; [exact A|].
+    intros m Hm. destruct (B m Hm) as [[]|H]. apply sort_items_in. exact H. }
+  destruct H0 as [Hprm Hm0].
+  destruct (out_pass e (c_outgoing c) msgs0 cur0) as [[rem msgs] cu] eqn:E1.
+  destruct (out_pass_cnt _ _ _ _ _ _ _ E1) as (tk & -> & Hs & Irem & Itk).
+  unfold Sc. apply St_shrink; [reflexivity|]. intros [N P O R U]. cbn [vw v_prm v_out] in P, O.
+  (* every callback carried by a selected message was stored before *)
+  assert (Hsel : forall k, In k (mcbs (msgs0 ++ tk)) -> In k (mcbs (c_outgoing c) ++ mcbs (map snd (c_pretry_msg c)))).
+  { intros k Hk. rewrite mcbs_app in Hk. apply in_or_app. apply in_app_or in Hk as [Hk|Hk].
+    - right. exact (mcbs_incl _ _ Hm0 k Hk).
+    - left. exact (mcbs_incl _ _ Itk k Hk). }
+  assert (Hp0 : pids (mcbs msgs0) = []) by exact (pids_nil_incl _ _ (mcbs_incl _ _ Hm0) P).
+  assert (Orem : Forall mok rem).
+  { rewrite Forall_forall in *. intros m Hm. apply O. apply Irem. exact Hm. }
+  assert (Hpl : sub (pids (mcbs rem) ++ pids (mcbs (msgs0 ++ tk))) (pids (mcbs (c_outgoing c)))).
+  { rewrite mcbs_app, pids_app, Hp0, !pids_mcbs. subs. }
+  match type of E with (if ?b then _ else _) = _ => destruct b eqn:Hty end.
+  - (* nothing assembled *)
+    injection E as <- <-.
+    match goal with |- Shrink _ _ ?X' ?v' =>
+      change X' with (pend c);
+      change v' with {| v_out := rem; v_prm := prm; v_pf := c_pfrags c; v_done := c_done c; v_rid := c_next_rid c |} end.
+    constructor; cbn [vw v_prm v_out v_rid v_done v_pf]; auto; try lia.
+    + unfold plain. cbn [vw v_out v_pf]. subs.
+    + unfold allcb. cbn [vw v_out v_prm]. apply incl_app; [apply incl_appl, incl_refl|apply incl_appr].
+      apply incl_app; [apply incl_appl; apply mcbs_incl; exact Irem|apply incl_appr; apply mcbs_incl, incl_map; exact Hprm].
+    + apply (pids_nil_incl _ (mcbs (map snd (c_pretry_msg c)))); [apply mcbs_incl, incl_map; exact Hprm|exact P].
+  - set (s := seq_succ (c_seq_send c)).
+    set (retr := filter (fun m => negb (retry_is_none (m_retry m))) (map (stamp now) (msgs0 ++ tk))).
+    set (prm' := fold_left (fun d m => dset (m_seq m) m d) retr prm).
+    set (pcbs' := match mcbs (msgs0 ++ tk) with [] => c_pcbs c | _ => dset s (mcbs (msgs0 ++ tk)) (c_pcbs c) end).
+    assert (Hpc : sub (pids (flat_map snd pcbs')) (pids (mcbs (msgs0 ++ tk)) ++ pids (flat_map snd (c_pcbs c))) /\
+                  incl (flat_map snd pcbs') (mcbs (msgs0 ++ tk) ++ flat_map snd (c_pcbs c))).
+    { subst pcbs'. destruct (mcbs (msgs0 ++ tk)) as [|k0 ks] eqn:Ek.
+      - split; [cbn; apply sub_refl|apply incl_refl].
+      - split; [rewrite !pids_vals; apply dv_dset|]. intros x Hx. apply in_or_app. exact (vals_dset_In _ _ _ _ Hx). }
+    destruct Hpc as [Hpc1 Hpc2].
+    (* messages stored for re-sending: old entries or stamped selected messages with a retry mode *)
+    assert (Hprm' : forall x, In x prm' -> In x (c_pretry_msg c) \/
+                       exists m0, In m0 (msgs0 ++ tk) /\ snd x = stamp now m0 /\ m_retry m0 <> RNone).
+    { intros x Hx. destruct (fold_dset_In now _ _ _ Hx) as [H|(m & H1 & H2)]; [left; apply Hprm; exact H|right].
+      apply filter_In in H1 as [H1 Hr]. apply in_map_iff in H1 as (m0 & <- & Hm0'). exists m0. split; [exact Hm0'|]. split; [exact H2|].
+      rewrite stamp_retry in Hr. destruct (m_retry m0); [discriminate|discriminate|discriminate]. }
+    assert (Hv : vw c' = {| v_out := rem; v_prm := prm'; v_pf := c_pfrags c; v_done := c_done c; v_rid := c_next_rid c |} /\ c_pcbs c' = pcbs').
+    { injection E as <- _. subst pcbs' prm' retr s. split.
+      - repeat match goal with |- context [match ?x with [] => _ | _ :: _ => _ end] => destruct x end; reflexivity.
+      - rewrite mcbs_opt. repeat match goal with |- context [match ?x with [] => _ | _ :: _ => _ end] => destruct x end; reflexivity. }
+    destruct Hv as [Hv1 Hv2]. unfold pend at 2. rewrite Hv1, Hv2.
+    (* a callback of a stored message: stored before, or carried by a selected message *)
+    assert (Hk' : forall k, In k (mcbs (map snd prm')) ->
+                    In k (mcbs (map snd (c_pretry_msg c))) \/
+                    exists m0, In m0 (msgs0 ++ tk) /\ m_cb m0 = Some k /\ m_retry m0 <> RNone).
+    { intros k Hk. apply mcbs_In in Hk as (m & Hm & Hc). apply in_map_iff in Hm as (x & <- & Hx).
+      destruct (Hprm' x Hx) as [H|(m0 & H1 & H2 & H3)].
+      - left. apply mcbs_In. exists (snd x). split; [apply in_map; exact H|exact Hc].
+      - right. exists m0. rewrite H2, stamp_cb in Hc. auto. }
+    constructor; cbn [vw v_prm v_out v_rid v_done v_pf]; auto; try lia.
+    + unfold plain, pend. cbn [vw v_out v_pf]. subs.
+    + unfold allcb, pend. cbn [vw v_out v_prm]. intros x Hx. apply in_app_or in Hx as [Hx|Hx].
+      * apply Hpc2 in Hx. apply in_app_or in Hx as [Hx|Hx]; [apply in_or_app; right; exact (Hsel x Hx)|apply in_or_app; left; exact Hx].
+      * apply in_or_app. right. apply in_app_or in Hx as [Hx|Hx]; [apply in_or_app; left; exact (mcbs_incl _ _ Irem x Hx)|].
+        destruct (Hk' x Hx) as [H|(m0 & H1 & H2 & _)]; [apply in_or_app; right; exact H|].
+        apply Hsel. apply mcbs_In. exists m0. auto.
+    + apply pids_nil_iff. intros k Hk. destruct (Hk' k Hk) as [H|(m0 & H1 & H2 & H3)].
+      * exact (proj1 (pids_nil_iff _) P k H).
+      * apply in_app_or in H1 as [H1|H1].
+        -- apply (proj1 (pids_nil_iff _) Hp0 k). apply mcbs_In. exists m0. auto.
+        -- rewrite Forall_forall in O. pose proof (O m0 (Itk m0 H1) H3) as Hm. rewrite H2 in Hm. cbn in Hm.
+           rewrite app_nil_r in Hm. exact Hm.
+Qed.
+
+Lemma build_packet_Sc e c now c' r : build_packet e c now = (c', r) -> Sc [] c c' [].
+Proof.
+  intros E. unfold build_packet in E. destruct (_ <? _); [injection E as <- <-; apply St_refl|].
+  destruct (build_impl e c now _ _) as [c1 r1] eqn:E1. apply build_impl_Sc in E1.
+  destruct r1; injection E as <- <-; [|exact E1].
+  eapply Sc_nil_trans; [exact E1|apply Sc_same; reflexivity].
+Qed.
+
+Lemma fired_emit c pk : fired (emit c pk) = [].
+Proof. apply fired_none. intros id b. apply emit_no_cb. Qed.
+
+Lemma fired_filter_ret o :
+  fired (filter (fun x => match x with ORet _ => false | _ => true end) o) = fired o.
+Proof.
+  induction o as [|x o IH]; [reflexivity|]. cbn [filter].
+  destruct x; try exact IH;
+    match goal with |- fired (?y :: ?a) = fired (?y :: ?b) => change (fired [y] ++ fired a = fired [y] ++ fired b); rewrite IH; reflexivity end.
+Qed.
+
+Lemma client_update_Sc c now c' o : client_update c now = (c', o) -> Sc [] c c' o.
+Proof.
+  unfold client_update. intros E.
+  destruct (_ && _) in E; destruct (_ && _) in E; injection E as <- <-; apply Sc_same; try reflexivity;
+    destruct (c_conn_cb _); reflexivity.
+Qed.
+
+Lemma client_tick_Sc e c now r c' o : client_tick e c now r = (c', o) -> Sc [] c c' o.
+Proof.
+  unfold client_tick. intros E.
+  destruct (client_update c now) as [c0 o0] eqn:E0. apply client_update_Sc in E0.
+  destruct (status_eqb (c_status c0) DROPPED); [injection E as <- <-; exact E0|].
+  match type of E with (let '(c, o) := ?x in _) = _ => destruct x as [c1 o1] eqn:E1 end.
+  assert (H1 : Sc [] c0 c1 o1).
+  { destruct r as [|er|d orcs].
+    - injection E1 as <- <-. apply St_refl.
+    - injection E1 as <- <-. apply St_silent. reflexivity.
+    - destruct (recv c0 now d orcs) as [c'' o''] eqn:Er. injection E1 as <- <-.
+      eapply St_out; [apply fired_filter_ret|]. exact (recv_Sc _ _ _ _ _ _ Er). }
+  destruct (raised o1); [injection E as <- <-; exact (Sc_seq _ _ _ _ _ E0 H1)|].
+  destruct (_ >? _); [|injection E as <- <-; exact (Sc_seq _ _ _ _ _ E0 H1)].
+  destruct (build_packet e c1 now) as [c2 pk] eqn:E2. apply build_packet_Sc in E2.
+  destruct (check_timeout false c2 now) as [c3 o3] eqn:E3. injection E as <- <-.
+  apply Sc_seq with (c1 := c0); [exact E0|]. apply Sc_seq with (c1 := c1); [exact H1|].
+  apply Sc_seq with (c1 := c2).
+  - eapply St_out; [|exact E2]. destruct pk; [apply fired_emit|reflexivity].
+  - exact (timeout_loop_Sc _ _ _ _ _ _ E3).
+Qed.
+
+Lemma server_tick_Sc e c now c' o : server_tick e c now = (c', o) -> Sc [] c c' o.
+Proof.
+  unfold server_tick. intros E. destruct (_ >? _); [|injection E as <- <-; apply St_refl].
+  destruct (build_packet e c now) as [c1 pk] eqn:E1. apply build_packet_Sc in E1.
+  destruct (check_timeout true c1 now) as [c2 o2] eqn:E2. injection E as <- <-.
+  apply St_out with (o := [] ++ o2).
+  { cbn [app]. rewrite fired_app. destruct pk; [rewrite fired_emit|]; cbn; apply app_nil_r. }
+  apply Sc_seq with (c1 := c1); [exact E1|exact (timeout_loop_Sc _ _ _ _ _ _ E2)].
+Qed.
+
+(* ---------- one event, whole histories ---------- *)
+Theorem step_Sc e c x c' o : ev_ok e x -> step e c x = (c', o) -> Sc (ev_ids x) c c' o.
+Proof.
+  intros Hok E. destruct x; cbn [step ev_ids] in *.
+  - exact (send_Sc _ _ _ _ _ _ _ Hok E).
+  - exact (client_tick_Sc _ _ _ _ _ _ E).
+  - exact (server_tick_Sc _ _ _ _ _ E).
+  - exact (recv_Sc _ _ _ _ _ _ E).
+  - injection E as <- <-. apply disconnect_Sc.
+  - injection E as <- <-. destruct which as [|[[?|?|]|[?|?|]|]|?]; apply Sc_same; reflexivity.
+  - injection E as <- <-. apply client_hello_Sc.
+  - injection E as <- <-. apply Sc_same; reflexivity.
+  - injection E as <- <-. apply Sc_same; reflexivity.
+Qed.
+
+Definition sent_ids (xs : list ev) : list Z := flat_map ev_ids xs.
+
+Theorem run_Sc e xs : forall c c' oss, Forall (ev_ok e) xs -> run e c xs = (c', oss) ->
+  Sc (sent_ids xs) c c' (concat oss).
+Proof.
+  induction xs as [|x xs IH]; intros c c' oss Hok E; cbn [run] in E.
+  - injection E as <- <-. apply St_refl.
+  - inversion Hok as [|? ? Hx Hxs]; subst.
+    destruct (step e c x) as [c1 o] eqn:E1. destruct (run e c1 xs) as [c2 os] eqn:E2. injection E as <- <-.
+    cbn [sent_ids flat_map concat]. eapply St_comp; [exact (step_Sc _ _ _ _ _ Hx E1)|exact (IH _ _ _ Hxs E2)].
+Qed.
+
+(* the invariant and "an id is mentioned by the connection" on connections *)
+Definition CbInv (c : conn) : Prop := Inv (pend c) (vw c).
+Definition CbKnown (c : conn) (id : Z) : Prop := Known (pend c) (vw c) id.
+
+Lemma CbInv_conn0 b : CbInv (conn0 b).
+Proof. constructor; cbn; [constructor|reflexivity|constructor|intros ? ? []|intros ? ? ? ? []]. Qed.
+Lemma CbKnown_conn0 b id : ~ CbKnown (conn0 b) id.
+Proof. intros [[]|(rid & [])]. Qed.
+
+Theorem run_CbInv e xs c c' oss : CbInv c -> Forall (ev_ok e) xs -> NoDup (sent_ids xs) ->
+  (forall id, In id (sent_ids xs) -> ~ CbKnown c id) -> run e c xs = (c', oss) -> CbInv c'.
+Proof. intros HI Hok ND Fr E. exact (proj1 (run_Sc e xs c c' oss Hok E HI ND Fr)). Qed.
+
+Theorem callback_at_most_once e xs c c' oss : CbInv c -> Forall (ev_ok e) xs -> NoDup (sent_ids xs) ->
+  (forall id, In id (sent_ids xs) -> ~ CbKnown c id) -> run e c xs = (c', oss) ->
+  NoDup (fired (concat oss)).
+Proof. intros HI Hok ND Fr E. exact (proj1 (proj2 (run_Sc e xs c c' oss Hok E HI ND Fr))). Qed.
